@@ -424,3 +424,26 @@ CHECKS["C09"] = {
         J("durability", VTRACE, "TestC09Durability", {"shards": 8, "checks": 15}, {"shards": 16, "checks": 500}),
     ],
 }
+
+CHECKS["C15"] = {
+    "level": "fault_enumeration",
+    "engine": "E5 fstrace",
+    "prebuild": DRV_PREBUILD,
+    "level_text": "(a) generated multi-user stores with hostile auxiliary data (binary, 2 MiB, 64 KiB lines, no trailing newline, CRLF, record-like lines) and operation sequences, judged by byte/inode/mtime snapshots; "
+                  "(b) read-only calls traced with ptrace: no mutating or sync system call on any path; (c) for every mutating operation in a generated state a baseline trace lists every file-system "
+                  "system call of the operation, and the operation is re-run once per call x plausible errno (EACCES, EMFILE, ENOSPC, EIO) with exactly that call failing: complete single-fault enumeration per execution.",
+    "level_note": "Trusted: the tracer (injection is confirmed per run: a run whose injection did not hit the planned call is discarded and counted), refimpl. Short writes are not injected. "
+                  "RemoveUser has no error return, so its success report under injection is not judged.",
+    "technique": "single-fault enumeration by ptrace syscall fault injection over rapid-generated operations; snapshot-equality oracles; trace predicate for read-only calls",
+    "oracle": "reported failure => user files byte-identical to the pre-state, no temp file left (an empty .tmp may exist); reported success => complete success state (record verifies, aux complete, others untouched); "
+              "never a crash; update changes only the target's first line; set-admin preserves bytes+inode+mtime; read-only calls: identical snapshot and no mutating syscall",
+    "rule": "non-trivial = (a) an update of a record with auxiliary data among other users, (b) every traced read-only call, (c) an injected failure after the first successful mutation of that operation; "
+            "distinct = distinct (operation, aux class) / (operation, syscall, ordinal, errno)",
+    "assumptions": ["one failing system call per run; errno values as listed in the harness table"],
+    "required_classes": {"all": ["update-of-record-with-aux-data", "aux:huge", "aux:nonl", "aux:crlf", "failed-op-left-store-unchanged", "injection-after-first-mutation", "readonly-traced:authenticate", "readonly-traced:list"]},
+    "jobs": [
+        J("untouched", VSTORE, "TestC15Untouched", {"shards": 6, "checks": 100}, {"shards": 16, "checks": 3000}),
+        J("readonly", VTRACE, "TestC15ReadOnlyTrace", {"shards": 2, "checks": 25}, {"shards": 8, "checks": 600}),
+        J("faults", VTRACE, "TestC15FaultInjection", {"shards": 8, "checks": 2}, {"shards": 16, "checks": 60}),
+    ],
+}
